@@ -2,6 +2,7 @@
 from __future__ import annotations
 
 import inspect
+import json
 import os
 import pickle
 import shutil
@@ -306,9 +307,55 @@ def server_result_tier(ctx):
             ctx.record(case, shape=len(listed), cls=f"server_result:resources:{b}")
 
 
+def wire_names_tier(ctx):
+    """Part D: typed models inside messages, as the three client transports put them on the wire."""
+    from vf.ref import strict_eq
+    tmp = tempfile.mkdtemp(prefix="vf_c10d_")
+    try:
+        outs = {}
+        for b in ("pydantic", "fallback"):
+            env = child_env()
+            env.pop("MCP_FORCE_FALLBACK", None)
+            if b == "fallback":
+                env["MCP_FORCE_FALLBACK"] = "1"
+            r = subprocess.run([PY, "-B", "-m", "vf.workers.wire_names_worker", os.path.join(tmp, b + ".pkl")],
+                               env=env, cwd=ROOT, capture_output=True, text=True, timeout=600)
+            if r.returncode != 0:
+                ctx.inconclusive_because(f"wire-names worker ({b}) failed: {r.stderr[-300:]}")
+                return
+            outs[b] = pickle.load(open(os.path.join(tmp, b + ".pkl"), "rb"))
+    finally:
+        shutil.rmtree(tmp, ignore_errors=True)
+    if outs["pydantic"]["pydantic_available"] is not True or outs["fallback"]["pydantic_available"] is not False:
+        ctx.inconclusive_because("backend selection not effective in the wire-names workers")
+        return
+    for b, o in outs.items():
+        for carrier in ("stdio", "http", "sse"):
+            got = o.get(carrier)
+            if got is None:
+                ctx.inconclusive_because(f"wire-names worker ({b}) could not drive {carrier}: {o.get(carrier + '_error') or o.get('http_error')}")
+                continue
+            cases = o["cases"]
+            if len(got) != len(cases):
+                ctx.violation("typed_message_not_written", f"{carrier} ({b}): {len(got)} messages reached the peer for {len(cases)} "
+                              f"written (a message holding a typed model was dropped)", {"carrier": carrier, "backend": b})
+                continue
+            for (label, exp), wire in zip(cases, got):
+                ctx.count("typed_messages_on_the_wire")
+                case = {"carrier": carrier, "backend": b, "message": label}
+                if not strict_eq(wire, exp):
+                    text = json.dumps(wire)
+                    mech = "python_name_on_wire" if ('"meta"' in text or '"schema_"' in text) else "typed_member_altered_on_wire"
+                    ctx.violation(mech, f"{label} written through the {carrier} transport ({b}) reached the peer as {text[:300]}; "
+                                  f"with wire names it is {json.dumps(exp)[:300]}", case)
+                ctx.record(case, shape=None, nontrivial=True, cls=f"wire_names:{carrier}:{b}", sample={"case": case, "wire": wire})
+    ctx.require_reached("typed_messages_on_the_wire")
+
+
 def run(ctx):
     if ctx.shard[0] == 0:
         server_result_tier(ctx)
+        wire_names_tier(ctx)
     rng = ctx.sub_rng("c10")
     cases, per_class = modelgen.build_cases(rng, ctx.tier)
     models = modelgen.discover_models()
